@@ -126,8 +126,14 @@ def main():
     violations = []      # list of (replay_path, suffix)
     known_lines = {}
     # ---------------------------------------------------------------- proofs
-    pr = proof_stage(pid, tier, log)
-    drv_ok = ensure_driver(log)
+    # one build at a time: checks may be started concurrently and share coq/ and ocaml/_build
+    import fcntl
+    os.makedirs(os.path.join(VERIF, ".scratch"), exist_ok=True)
+    with open(os.path.join(VERIF, ".scratch", "build.lock"), "w") as lk:
+        fcntl.flock(lk, fcntl.LOCK_EX)
+        pr = proof_stage(pid, tier, log)
+        drv_ok = ensure_driver(log)
+        fcntl.flock(lk, fcntl.LOCK_UN)
     if not drv_ok: pr["failures"].append("the extracted model driver does not build")
     # ---------------------------------------------------------------- correspondence
     rng = random.Random((seed, pid, tier).__repr__())
